@@ -114,7 +114,7 @@ Theorem C05_readdir_scope : forall X dmeta t writes ep name recursive segs ch,
          local_segs (i_path e) = Ok q /\ geto t q = Some n /\ scope recursive segs q /\
          match n with
          | Dir _ => i_dir e = true
-         | File c m => i_dir e = false /\ i_size e = strlen c /\ i_etag e = etag_of m (strlen c) /\
+         | File c m => i_dir e = false /\ i_size e = Z.of_N (strlen c) /\ i_etag e = etag_of m (strlen c) /\
                        i_mod e = to_second (instant_of_ns m)
          end) /\
     (forall q n, geto t q = Some n -> scope recursive segs q -> In (external_path q) (map i_path l)).
@@ -244,7 +244,7 @@ Theorem C05_readdir_scope_modelled_codecs : forall iph txt mime, text_transparen
          local_segs (i_path e) = Ok q /\ geto t q = Some n /\ scope recursive segs q /\
          match n with
          | Dir _ => i_dir e = true
-         | File c m => i_dir e = false /\ i_size e = strlen c /\ i_etag e = etag_of m (strlen c) /\
+         | File c m => i_dir e = false /\ i_size e = Z.of_N (strlen c) /\ i_etag e = etag_of m (strlen c) /\
                        i_mod e = to_second (instant_of_ns m)
          end) /\
     (forall q n, geto t q = Some n -> scope recursive segs q -> In (external_path q) (map i_path l)).
